@@ -453,6 +453,7 @@ func runC10(env *Env) {
 	}
 	boundaryPromptDelivery(env, rep, "C10-flows", 12)
 	boundaryStaleEvents(env, rep, "C10-flows", 8)
+	threeTokensOneTask(env, rep, "C10-flows", 4)
 	env.WriteCases(rep, "", "Corr.C10corr", "list (nat * nat) * list nat * nat * list nat * nat", items, "c10_mismatches")
 	env.WriteReport(rep)
 }
